@@ -2,8 +2,8 @@ package props
 
 import (
 	"fmt"
-	"strings"
 	"math/rand/v2"
+	"strings"
 
 	"verifharness/gen"
 	"verifharness/mon"
